@@ -141,6 +141,7 @@ func c10(c *Ctx) {
 
 	c10invalid(c, t)
 	c10deadline(c, t)
+	t.deadlineUnderLock("C10.deadline")
 }
 
 func c10invalid(c *Ctx, t *transport) {
